@@ -380,6 +380,10 @@ class QualEval:
             order, lst = "rev", it.args[0].id
         elif isinstance(it, ast.Subscript) and is_rev_slice(it.slice) and isinstance(it.value, ast.Name) and it.value.id in lists:
             order, lst = "rev", it.value.id
+        elif isinstance(it, ast.Call) and isinstance(it.func, ast.Name) and it.func.id == "sorted" and it.args and isinstance(it.args[0], ast.Name) and it.args[0].id in lists:
+            # the characters are taken in sorted order of the qubit numbers, not in the order of the list
+            self.problems.append((f, node, f"the key characters are joined over `{ast.unparse(it)}`: the order of the caller's qubit list is lost (position j of the outcome no longer belongs to the j-th listed qubit)"))
+            return ("ORD", it.args[0].id, "rev" if any(k.arg == "reverse" and isinstance(k.value, ast.Constant) and k.value.value for k in it.keywords) else "fwd", "ok")
         if order is None or not isinstance(gen.elt, ast.Subscript):
             return None
         s = self.q(f, gen.elt.value, env, lists, depth)
